@@ -1,5 +1,6 @@
 (* The forwarders of `impl SPDC` through which the crate reaches delta_k, the optimum idler and the optimum crystal angle
-   (src/spdc/spdc_obj.rs), as translated one per file by tools/gen/wrappers.py (Gen/W_SPDC_*.v): which callee, which arguments, in
+   (src/spdc/spdc_obj.rs: delta_k, optimum_idler, assign_optimum_idler, assign_optimum_crystal_theta — the four that the theorems of
+   Props/C03_aux.v are about; the other forwarders are in Compose_wrappers_misc.v), as translated one per file by tools/gen/wrappers.py (Gen/W_SPDC_*.v): which callee, which arguments, in
    which order, which fields are overwritten, how `?` propagates.
 
    Part 1 pins every wrapper: (i) the callee names and every call of the body with its argument expressions, as the string lists
@@ -13,8 +14,7 @@
      SPDC::assign_optimum_idler()     stores that idler with the waist of the previous idler and touches nothing else. *)
 From Coq Require Import Reals Bool List String.
 From SpdVerif Require Import Base.Rx Base.Vec3 Gen.Idler Model.Idler Gen.WrapBase.
-From SpdVerif Require Import Gen.W_SPDC_delta_k Gen.W_SPDC_optimum_idler Gen.W_SPDC_assign_optimum_idler Gen.W_SPDC_with_optimum_idler
-  Gen.W_SPDC_optimum_crystal_theta Gen.W_SPDC_assign_optimum_crystal_theta Gen.W_SPDC_with_optimum_crystal_theta.
+From SpdVerif Require Import Gen.W_SPDC_delta_k Gen.W_SPDC_optimum_idler Gen.W_SPDC_assign_optimum_idler Gen.W_SPDC_assign_optimum_crystal_theta.
 Import ListNotations.
 Local Open Scope R_scope.
 
@@ -29,22 +29,16 @@ Lemma wrap_c03_sources :
      ("idler", "set_waist", ["self.idler.waist()"]);
      ("self.idler", "=", ["idler"]);
      ("return", "Ok", ["self"])]%string /\
-  SPDC_with_optimum_idler_calls = [("self", "assign_optimum_idler?", []); ("return", "Ok", ["self"])]%string /\
-  SPDC_optimum_crystal_theta_calls = [("return", "self.crystal_setup.optimum_theta", ["&self.signal"; "&self.pump"])]%string /\
   SPDC_assign_optimum_crystal_theta_calls =
     [("self.pp", "=", ["PeriodicPoling::Off"]);
      ("self.crystal_setup", "assign_optimum_theta", ["&self.signal"; "&self.pump"]);
-     ("return", "", ["self"])]%string /\
-  SPDC_with_optimum_crystal_theta_calls =
-    [("self.pp", "=", ["PeriodicPoling::Off"]); ("self", "assign_optimum_crystal_theta", []); ("return", "", ["self"])]%string.
+     ("return", "", ["self"])]%string.
 Proof. repeat split; reflexivity. Qed.
 
 Lemma wrap_c03_callees :
   SPDC_delta_k_callees = ["delta_k"]%string /\ SPDC_optimum_idler_callees = ["IdlerBeam_try_new_optimum"]%string /\
   SPDC_assign_optimum_idler_callees = ["IdlerBeam_try_new_optimum"; "waist"; "set_waist"]%string /\
-  SPDC_with_optimum_idler_callees = ["assign_optimum_idler"]%string /\ SPDC_optimum_crystal_theta_callees = ["optimum_theta"]%string /\
-  SPDC_assign_optimum_crystal_theta_callees = ["PeriodicPoling_Off"; "assign_optimum_theta"]%string /\
-  SPDC_with_optimum_crystal_theta_callees = ["PeriodicPoling_Off"; "assign_optimum_crystal_theta"]%string.
+  SPDC_assign_optimum_crystal_theta_callees = ["PeriodicPoling_Off"; "assign_optimum_theta"]%string.
 Proof. repeat split; reflexivity. Qed.
 
 Section Order.
@@ -60,10 +54,6 @@ Lemma wrap_optimum_idler_order : forall (tno : obj -> obj -> obj -> obj -> optio
   SPDC_optimum_idler_gen {| SPDC_optimum_idler_K_IdlerBeam_try_new_optimum := tno |} s = tno (signal s) (pump s) (crystal_setup s) (pp s).
 Proof. reflexivity. Qed.
 
-Lemma wrap_optimum_crystal_theta_order : forall (ot : obj -> obj -> obj -> obj) (s : spdc),
-  SPDC_optimum_crystal_theta_gen {| SPDC_optimum_crystal_theta_K_optimum_theta := ot |} s = ot (crystal_setup s) (signal s) (pump s).
-Proof. reflexivity. Qed.
-
 (* assign_optimum_idler: the optimum idler from (signal, pump, crystal_setup, pp), given the waist of the idler it replaces;
    an error of try_new_optimum is returned and nothing is stored *)
 Lemma wrap_assign_optimum_idler : forall (tno : obj -> obj -> obj -> obj -> option obj) (wst : obj -> obj) (setw : obj -> obj -> obj) (s : spdc),
@@ -77,11 +67,6 @@ Lemma wrap_assign_optimum_idler : forall (tno : obj -> obj -> obj -> obj -> opti
     end.
 Proof. intros. unfold SPDC_assign_optimum_idler_gen. cbn. destruct (tno _ _ _ _); reflexivity. Qed.
 
-(* the with_ forms are the assign_ forms on the moved value *)
-Lemma wrap_with_optimum_idler : forall (assign : spdc -> option spdc) (s : spdc),
-  SPDC_with_optimum_idler_gen {| SPDC_with_optimum_idler_K_assign_optimum_idler := assign |} s = assign s.
-Proof. intros. unfold SPDC_with_optimum_idler_gen. cbn. destruct (assign s); reflexivity. Qed.
-
 (* assign_optimum_crystal_theta: the poling is switched off FIRST, then the crystal setup is replaced by
    crystal_setup.assign_optimum_theta(signal, pump); nothing else changes *)
 Lemma wrap_assign_optimum_crystal_theta : forall (off : obj) (aot : obj -> obj -> obj -> obj) (s : spdc),
@@ -89,21 +74,6 @@ Lemma wrap_assign_optimum_crystal_theta : forall (off : obj) (aot : obj -> obj -
                                            SPDC_assign_optimum_crystal_theta_K_assign_optimum_theta := aot |} s =
     mk_spdc (signal s) (idler s) (pump s) (aot (crystal_setup s) (signal s) (pump s)) off
             (signal_waist_position s) (idler_waist_position s).
-Proof. reflexivity. Qed.
-
-(* with_optimum_crystal_theta switches the poling off and calls assign_optimum_crystal_theta; composed with the generated
-   assign_ it is the same state as assign_ alone (the first `self.pp = Off` is redundant) *)
-Lemma wrap_with_optimum_crystal_theta : forall (off : obj) (assign : spdc -> spdc) (s : spdc),
-  SPDC_with_optimum_crystal_theta_gen {| SPDC_with_optimum_crystal_theta_K_PeriodicPoling_Off := off;
-                                         SPDC_with_optimum_crystal_theta_K_assign_optimum_crystal_theta := assign |} s = assign (set_pp s off).
-Proof. reflexivity. Qed.
-
-Lemma wrap_with_optimum_crystal_theta_composed : forall (off : obj) (aot : obj -> obj -> obj -> obj) (s : spdc),
-  let Ka := {| SPDC_assign_optimum_crystal_theta_K_PeriodicPoling_Off := off;
-               SPDC_assign_optimum_crystal_theta_K_assign_optimum_theta := aot |} in
-  SPDC_with_optimum_crystal_theta_gen {| SPDC_with_optimum_crystal_theta_K_PeriodicPoling_Off := off;
-                                         SPDC_with_optimum_crystal_theta_K_assign_optimum_crystal_theta := SPDC_assign_optimum_crystal_theta_gen Ka |} s =
-  SPDC_assign_optimum_crystal_theta_gen Ka s.
 Proof. reflexivity. Qed.
 
 (* the idler is not recomputed by assign_optimum_crystal_theta (SPDC::try_as_optimum calls assign_optimum_idler afterwards) *)
@@ -187,30 +157,16 @@ Proof.
   destruct (optimum_idler index pm cp s p q); reflexivity.
 Qed.
 
-(* with_optimum_idler(self) = assign_optimum_idler on the moved value: an error leaves no half-updated object behind *)
-Corollary wrap_with_optimum_idler_model : forall s i p pm cp q zs zi,
-  SPDC_with_optimum_idler_gen
-    {| SPDC_with_optimum_idler_K_assign_optimum_idler := SPDC_assign_optimum_idler_gen K_assign_optimum_idler |} (spdc_of s i p pm cp q zs zi) =
-  match optimum_idler index pm cp s p q with
-  | Some o => Some (spdc_of s (mkBeam (b_pol o) (b_phi o) (b_theta o) (b_omega o) (b_dir o) (b_waist i)) p pm cp q zs zi)
-  | None => None
-  end.
-Proof. intros. rewrite wrap_with_optimum_idler. apply wrap_assign_optimum_idler_model. Qed.
 End OnModel.
 
 Print Assumptions wrap_c03_sources.
 Print Assumptions wrap_c03_callees.
 Print Assumptions wrap_delta_k_order.
 Print Assumptions wrap_optimum_idler_order.
-Print Assumptions wrap_optimum_crystal_theta_order.
 Print Assumptions wrap_assign_optimum_idler.
-Print Assumptions wrap_with_optimum_idler.
 Print Assumptions wrap_assign_optimum_crystal_theta.
-Print Assumptions wrap_with_optimum_crystal_theta.
-Print Assumptions wrap_with_optimum_crystal_theta_composed.
 Print Assumptions wrap_assign_optimum_crystal_theta_keeps_idler.
 Print Assumptions wrap_delta_k_model.
 Print Assumptions wrap_delta_k_z.
 Print Assumptions wrap_optimum_idler_model.
 Print Assumptions wrap_assign_optimum_idler_model.
-Print Assumptions wrap_with_optimum_idler_model.
